@@ -319,6 +319,23 @@ impl LongTermCredentialClient {
             return Err(IntegrityError::Discarded);
         }
 
+        // The "Username anonymity" bit of the new nonce decides whether the
+        // following requests carry USERHASH instead of USERNAME
+        let user_anonymity = nonce.is_nonce_cookie()
+            && nonce
+                .security_features()
+                .map(|flags| flags.contains(StunSecurityFeatures::UserNameAnonymity))
+                .unwrap_or(false);
+        params.user_hash = if user_anonymity {
+            Some(create_user_hash_attr(
+                msg.transaction_id(),
+                &self.user_name,
+                &params.realm,
+            )?)
+        } else {
+            None
+        };
+
         // Update Nonce and retry with a new transaction
         params.nonce = nonce;
         self.change_state(LongTermCredentialState::Retry(RetryCause::StaleNonce));
